@@ -343,15 +343,44 @@ def rule_disp(ctx):
               "the base initiate_send must run under the same lock as sendData's append (found %s vs %s)" % (L2, sorted(x for x in guards.values() if x)), "one lock: %s" % L2)
     # a connection never inherits output of the previous one: the network layer creates a fresh dispatcher for every
     # connection (the asyncore out_buffer survives close()), on a node that dominates the connect call
+    # - by abstract execution: createConnection run twice on one network layer connects two different dispatcher objects,
+    # each made during that call
     cc = repo.method(NET, "YowNetworkLayer", "createConnection")
-    g = CFG(cc)
-    mk = [n for n in g.live if n.kind == "stmt" and isinstance(n.stmt, ast.Assign) and unparse(n.stmt.targets[0]) == "self._dispatcher"
-          and any(isinstance(x, ast.Call) and "create_dispatcher" in unparse(x.func) for x in ast.walk(n.stmt.value))]
-    conn = [n for n in g.live if n.stmt is not None and n.kind == "stmt" and any(isinstance(x, ast.Call) and unparse(x.func) == "self._dispatcher.connect" for x in ast.walk(n.stmt))]
-    okd = len(mk) == 1 and len(conn) == 1 and g.dominates(mk[0], conn[0])
-    ctx.check("C11.disp", okd, where(NET, "YowNetworkLayer.createConnection", cc.lineno), conn[0].stmt if conn else cc,
-              "the dispatcher is not created afresh on every path to connect(): a reused dispatcher still holds the unsent tail of the last frame of the previous connection, which then precedes the prologue on the new one",
-              "a new dispatcher for every connection")
+    from ..absint import Interp, _Raise
+    from ..layers import LayerRunner
+    net = repo.cls(NET, "YowNetworkLayer")
+    runner = LayerRunner(repo, {})
+    hooks = runner.hooks()
+    used = []
+
+    def connect(itp, recv, a, k, env, dd, e):
+        used.append(recv)
+        return ("c", None)
+    hooks["method:connect"] = connect
+    hooks["method:getProp"] = lambda itp, recv, a, k, env, dd, e: (a[1] if len(a) > 1 else ("ext", "prop", []))
+    it = Interp(repo, {}, {}, hooks=hooks)
+    it.layer_base = runner.base
+    layer = runner.make_layer(it, net)
+    problem = None
+    seen_before = []
+    try:
+        for _ in range(2):
+            seen_before.append(layer[1].fields.get("_dispatcher"))
+            it.method_call(layer, "createConnection", [], {}, {"@module": net.module, "@owner": net}, 0, None)
+    except _Raise as x:
+        problem = x.text
+    except Exception as x:          # NeedAtom / Budget
+        problem = "%s: %s" % (type(x).__name__, x)
+    wcc = where(NET, "YowNetworkLayer.createConnection", cc.lineno)
+    if problem or len(used) != 2:
+        ctx.undecided("C11.disp", wcc, cc, "createConnection could not be followed (%s)" % (problem or "%d connect call(s) in two runs" % len(used)))
+    else:
+        def ident(v):
+            return v[1] if v[0] in ("obj",) else (v[2] if v[0] == "ext" else None)
+        fresh = ident(used[0]) is not None and ident(used[0]) is not ident(used[1]) and all(sb is None or ident(sb) is None or ident(sb) is not ident(u) for sb, u in zip(seen_before, used))
+        ctx.check("C11.disp", fresh, wcc, "a new dispatcher for every connection",
+                  "the dispatcher is not created afresh on every path to connect(): a reused dispatcher still holds the unsent tail of the last frame of the previous connection, which then precedes the prologue on the new one",
+                  "a new dispatcher for every connection")
     # the lock is per instance and re-entrant (sendData calls initiate_send while holding it)
     from ..state import bound_in_init
     b = bound_in_init(repo, d)
